@@ -62,6 +62,29 @@ Theorem C05_clone_independent :
 Proof. exact clone_independent_gen. Qed.
 Print Assumptions C05_clone_independent.
 
+(* values taken from the group itself (Base, Null, Mul by the base): when the receiver gets a deep
+   copy of the group constant, no later in-place write or rebinding of the receiver changes the
+   constant (so every earlier and later Base() stays what it was) *)
+Theorem C05_group_constant_intact :
+  forall (val : Type) (h : heap val) (cst p : obj) (fs : list field) (ops : list (hop val)),
+    wf h -> cst <> p ->
+    (forall f g, ~ In f fs -> bind h p f <> bind h cst g) ->
+    Forall (fun o => hop_target o = p) ops -> Forall (@hop_deep val) ops ->
+    forall f, look (run_hops ops (deep_copy p cst fs h)) cst f = look h cst f.
+Proof. exact constant_intact. Qed.
+Print Assumptions C05_group_constant_intact.
+
+(* ... and it fails for a struct / pointer copy of the constant; a multiplication that clears its
+   output before reading the point operand is not alias safe *)
+Theorem C05_constant_sharing_refuted :
+  (exists (h : heap Z) x, wf h /\ look (run_hops [HWrite 1%nat 0%nat x] (shallow_copy 1%nat 0%nat [0%nat] h)) 0%nat 0%nat
+                                   <> look h 0%nat 0%nat) /\
+  (exists e s, env_ok mul_output_cleared_first e /\
+               fst (run_aliased Z opn (dl_interp 101 0) junk mul_output_cleared_first e s) (e recv) 0%nat
+               <> fst (run_fresh Z opn (dl_interp 101 0) junk mul_output_cleared_first e s) recv 0%nat).
+Proof. exact constant_sharing_refuted. Qed.
+Print Assumptions C05_constant_sharing_refuted.
+
 (* the transcriptions of the code as it was before the repairs are refuted *)
 Theorem C05_unrepaired_refuted :
   (* gnark G1/G2 Add with receiver = second operand computes 2a *)
